@@ -180,3 +180,23 @@ Theorem C19_route_table :
              has_prefix "ipfs://" u = false -> route_of cfg u = Reject).
 Proof. exact route_table. Qed.
 Print Assumptions C19_route_table.
+
+(* Totality and the link to the per-run correspondence: no load panics or diverges, each issues at
+   most one request (to the client and key of its routing row); and what the correspondence check
+   compares with the real loader (`observe`) is, for every Load of a history, exactly the outcome and
+   the requests of `load` in the state the theorems above speak about. *)
+Theorem C19_total :
+  forall cfg st u,
+  outcome_of (snd (load cfg st u)) <> OBad /\
+  (new_reqs st (fst (load cfg st u)) = [] \/
+   exists c k, chan_key cfg u = Some (c, k) /\ new_reqs st (fst (load cfg st u)) = [(c, k)]).
+Proof. exact load_total. Qed.
+Print Assumptions C19_total.
+
+Theorem C19_observed :
+  forall cfg pre u post,
+  In (outcome_of (snd (load cfg (run cfg pre) u)),
+      new_reqs (run cfg pre) (fst (load cfg (run cfg pre) u)))
+     (observe cfg init (pre ++ Load u :: post)).
+Proof. exact observe_load. Qed.
+Print Assumptions C19_observed.
